@@ -207,6 +207,12 @@ class Pipeline:
                 kind = beh.get('kind', 'xf')
                 pipe.hook(self, 'process', k)
                 if kind == 'src':
+                    gap = beh.get('gap')    # {'after': seq, 'ms': W}: like a camera with no new picture - a deferred result that yields None for W ms
+                    if gap and self.nsrc == gap['after'] + 1:
+                        t0g = self.__dict__.setdefault('_gap_t0', world.now)
+                        if world.now < t0g + gap['ms'] * 1_000_000:
+                            world.sleep(0.005)
+                            return lambda: None
                     if self.nsrc >= beh.get('n', 10):
                         world.sleep(beh.get('idle_ms', 50) / 1000)
                         return None
@@ -239,6 +245,10 @@ class Pipeline:
                     rec['ret'] = 'none'
                     return None
                 if seq in (beh.get('empty') or ()):
+                    if beh.get('ret') in ('callable', 'callable_frame'):     # a deferred result that turns out to be an empty set
+                        rec['ret'] = 'callable_empty'
+                        rec['cb_calls'] = cbe = []
+                        return lambda: cbe.append(world.now) or {}
                     rec['ret'] = 'empty'
                     return {}
                 topics = (beh.get('topics_by_seq') or {}).get(str(seq)) or beh.get('topics') or ['main']
